@@ -8,6 +8,10 @@
 //!    agents on one side, downlinks and one-way commanders on the other.
 //!  * `socket-raw`  – one `RemoteTask` against a raw ratchet peer that writes valid, respelt and
 //!    mutated envelopes.
+//!  * `socket-edge` – one `RemoteTask` against the raw peer on the paths where an envelope has no
+//!    addressee (unknown node / lane, client-only task) or the connection goes away under live
+//!    traffic (peer Close, transport EOF, failing writes, close time-out), and with an attached
+//!    channel that writes a corrupt frame.
 //!  * `multi-reader`, `multi-reader-threads` – `MultiReader` at poll level with counting wakers,
 //!    and woken from foreign OS threads (TSan / Miri workloads).
 
@@ -72,6 +76,11 @@ fn main() {
     if want("socket-raw") {
         let cases = s.args.budget(15_000, 400_000);
         s.part("socket-raw", socket::RULE_RAW, false, cases, |_i, rng, out| socket::raw_case(rng, &names, out));
+    }
+
+    if want("socket-edge") {
+        let cases = s.args.budget(8_000, 200_000);
+        s.part("socket-edge", socket::RULE_EDGE, false, cases, |_i, rng, out| socket::edge_case(rng, &names, out));
     }
 
     if want("multi-reader") {
